@@ -48,6 +48,11 @@ def direct_frames(ctx: Ctx):
         ids = [PROP_IDS[j] for j in range(9) if m >> j & 1]
         props = [C.PropertyId(x) for x in ids]
         emit("get_props", C.GetPropertiesCommand(set(props) if m % 2 else props), ids=ids)
+    # queries for ALL property ids, those above 0xFF included (0x021E): ids travel as two little-endian bytes
+    allq = [int(x) for x in C.PropertyId]
+    for m in (range(1, 1 << len(allq)) if not ctx.quick else rng.sample(range(1, 1 << len(allq)), 120) + [1 << j for j in range(len(allq))]):
+        ids = [allq[j] for j in range(len(allq)) if m >> j & 1]
+        emit("get_props", C.GetPropertiesCommand([C.PropertyId(x) for x in ids]), ids=ids)
     # every property with every value
     for pid in PROP_IDS:
         vals = range(256) if not ctx.quick else sorted({0, 1, 2, 3, 4, 20, 25, 40, 50, 60, 75, 80, 100, 255} | {rng.randrange(256) for _ in range(6)})
@@ -152,6 +157,12 @@ def device_frames(ctx: Ctx):
                 if r > 0.6:
                     rng.choice([lambda v: setattr(d, "breeze_away", v), lambda v: setattr(d, "breeze_mild", v),
                                 lambda v: setattr(d, "breezeless", v)])(rng.choice([False, True]))
+                if rng.random() < 0.12:
+                    # the unit misses a whole command (all its transmissions): the ids of the commands that follow go on from it
+                    orig_handle = ac.handle
+                    ac.handle = lambda f: (orig_handle(f), [])[1]          # received and understood, never answered
+                    await op("refresh", d.refresh())
+                    ac.handle = orig_handle
                 n0 = len(raised)
                 await op("apply", d.apply())
                 if len(raised) > n0:
